@@ -562,6 +562,9 @@ func TestVerifC11Run(t *testing.T) {
 				todo = append(todo, c11rCeremony{Algo: "frost", Flow: "run", N: nt[0], T: nt[1], Vals: 1, NoVerify: nv})
 			}
 		}
+		// more than 7 nodes (share indices beyond 7), no-verify: every node's keystore against the lock's public share at its index
+		todo = append(todo, c11rCeremony{Algo: "frost", Flow: "run", N: 8, T: 6, Vals: 1, NoVerify: true},
+			c11rCeremony{Algo: "frost", Flow: "run", N: 9, T: 6, Vals: 1, NoVerify: true})
 		todo = append(todo, c11rCeremony{Algo: "pedersen", Flow: "run", N: 4, T: 2, Vals: 1, NoVerify: true},
 			c11rCeremony{Algo: "pedersen", Flow: "run", N: 5, T: 3, Vals: 1, NoVerify: false})
 	} else {
